@@ -84,6 +84,8 @@ def gen_case(rng):
                 c["iter_fail"] = min(c["iter_fail"], c["n"])
         tot = max(sum(sum(c["dur"]) for c in case["calls"]), 1.0)
         case["timeout"] = round(2 * tot + rng.choice([1.0, 5.0, 20.0]), 3)
+    if case["flavour"] in ("M", "L") and rng.random() < 0.5:
+        case["max_nbytes"] = 31337
     case["strategy"] = ds.draw_strategy(rng)
     if case.get("timeout") is not None:
         case["strategy"].pop("p_jump", None)      # the timeout oracle bounds simulated time (see C16)
@@ -152,6 +154,12 @@ def oracle(w, s):
             return v
     if w.reentered:
         return V("iterator_reentered", str(w.flags[:3]))
+    if case.get("max_nbytes") is not None:
+        lost = [x for x in w.factory_kwargs if x[1] != case["max_nbytes"]]
+        if lost:
+            return V("backend_settings_lost", "Parallel(max_nbytes=%s): a %s was requested with max_nbytes=%s (request %d of %d)" % (
+                case["max_nbytes"], lost[0][0], lost[0][1], w.factory_kwargs.index(lost[0]) + 1, len(w.factory_kwargs)),
+                after_abort=any(call_has_fault(x) for x in case["calls"]))
     for name, rep, tb in s.thread_errors:
         # an exception escaping into a backend thread is an observation, not a verdict,
         # unless it is joblib's own bookkeeping breaking
